@@ -79,7 +79,7 @@ class CSlli(RiscvcInstruction):
     def encode(self):
         tokens = self.get_tokens()
         tokens[0][0:2] = 0b10
-        tokens[0][2:7] = self.imm & 0xF
+        tokens[0][2:7] = self.imm & 0x1F
         tokens[0][7:12] = self.rd.num
         tokens[0][13:16] = 0b0000
         return tokens[0].encode()
